@@ -43,6 +43,7 @@ type HarnessCfg struct {
 	Quick     TierCfg  `json:"quick"`
 	Thorough  TierCfg  `json:"thorough"`
 	Replay    string   `json:"replay"` // "native" (default) | "none"
+	Redirect  map[string]string `json:"redirect"`
 	Bounds    string   `json:"bounds"`
 	Models    []string `json:"models"`
 	AllowPanics bool   `json:"allow_panics"`
@@ -335,6 +336,7 @@ func cmdCheck(args []string) int {
 			continue
 		}
 		cfg := mkConfig(t, *tier, *workers)
+		cfg.Redirect = h.Redirect
 		var myKnown []string
 		for _, k := range kfs {
 			if k.Property == pid && k.Status == "known" && (k.Harness == h.Name || k.Harness == "") {
@@ -399,6 +401,7 @@ func cmdCheck(args []string) int {
 		// known-finding probes: run the harness restricted to the finding's region
 		for _, id := range myKnown {
 			pcfg := mkConfig(t, *tier, *workers)
+			pcfg.Redirect = h.Redirect
 			pcfg.Params["probe_"+id] = 1
 			pcfg.Validate = 0
 			pcfg.MaxPaths = cfg.MaxPaths
